@@ -691,6 +691,17 @@ def _check_main_wiring(ctx: Ctx, main: FuncInfo, merge: FuncInfo) -> None:
         ctx.ob("R-CONFIG-K8", f"{main.qual} :: merge precedes {norm(cn.ast)[:40]}", before,
                "the config merge must happen before the options are consumed", where(main, cn))
     guards = direct_guards(prog, main, mn)
+    # `if config_path:` and `if config_path is not None:` ask the same question of a Path | None
+    norm_guards = []
+    for g in guards:
+        t_ = g[0].ast
+        if isinstance(t_, ast.Compare) and len(t_.ops) == 1 and isinstance(t_.comparators[0], ast.Constant) and t_.comparators[0].value is None \
+                and isinstance(t_.ops[0], (ast.IsNot, ast.Is)):
+            lab = g[1] if isinstance(t_.ops[0], ast.IsNot) else ("F" if g[1] == "T" else "T")
+            norm_guards.append((g[0], lab, origins(prog, main, t_.left, g[0])))
+        else:
+            norm_guards.append(g)
+    guards = norm_guards
     ok = len(guards) == 1 and guards[0][1] == "T" and guards[0][2] == frozenset({("call", "flowmark.config:find_config_file")})
     ctx.ob("R-CONFIG-K8", f"{main.qual} :: merge runs whenever a config file is found", ok,
            "the merge may depend only on whether find_config_file found a file; guards: "
